@@ -57,7 +57,7 @@ def cra(a):
 def cbasic(b):
     return "(MkBasic %s %s %s %s %s %s %s %s %s %s %s %s)" % (cz(b["id"]), cs(b["read_id"]), cs(b["chr"]), cz(b["start"]), cz(b["end"]), czz(b["region"]),
         cbools(b["flags"]), cen("RAT", b["type"]), cen("RAT", b["gene_type"]), cpen(b["pen"]), clist(b["genes"], cs), clist(b["isoforms"], cs))
-def cgene(g): return "(MkGene %s %s %s %s %s)" % (cz(g["delta"]), clist(g["genes"], cs), cs(g["chr"]), cz(g["start"]), cz(g["end"]))
+def cgene(g): return "(MkGene %s %s %s %s %s %s %s)" % (cz(g["delta"]), clist(g["genes"], cs), cs(g["chr"]), cz(g["start"]), cz(g["end"]), cz(g["rstart"]), cz(g["rend"]))
 def cout(o, f):
     """('ok', value) | ('raises', class name)"""
     return "(Ok %s)" % f(o[1]) if o[0] == "ok" else "(Raises %d)" % EXC.get(o[1], 6)
@@ -83,6 +83,7 @@ def attempt(f):
 
 PRE = """From IQ Require Import Codec0 SaveFormat SaveFormat2. From IQ.gen Require Import Tables. From Coq Require Import QArith.
 Open Scope Z_scope.
+Definition RR := @RR@.   (* gene header layout of the code under test: true = with the reference window of the reads (fixes/C18_serialize_read_region.diff), false = without *)
 Definition SG := @SG@.   (* how read_dict of the code under test reads integer values: true = read_int_neg (fixes/C15_read_dict_sign.diff), false = read_int *)
 Definition lenb {A} (l:list A) : Z := Z.of_N (fold_left (fun n _ => N.succ n) l 0%N).
 Definition nrep (n v:N) : list N := N.iter n (cons v) [].
@@ -190,10 +191,10 @@ Definition check (c:case) : bool :=
       match dec_quick SG (b ++ t) with Some (q', rest) => basic_seteqb q' q && (lenb rest =? qrest) | None => false end &&
       basic_seteqb (basic_of a) p
   | CBasic x b x' => bytes_eqb (enc c_basic x) b && dec_eqb basic_eqb (dec c_basic b) (Some (x', []))
-  | CGene g b g' => bytes_eqb (enc c_ghead g) b && dec_eqb ghead_eqb (dec c_ghead b) (Some (g', []))
+  | CGene g b g' => bytes_eqb (enc (c_ghead RR) g) b && dec_eqb ghead_eqb (dec (c_ghead RR) b) (Some (g', []))
   | CStream gs b full quick fend qend =>
-      bytes_eqb (enc_save SG gs) b && dec_eqb groups_eqb (dec_save_full SG b) (Some (full, [])) &&
-      match dec_save_quick SG b with Some (qs, []) => list_eqb (list_eqb basic_seteqb) (map snd qs) quick | _ => false end &&
+      bytes_eqb (enc_save SG RR gs) b && dec_eqb groups_eqb (dec_save_full SG RR b) (Some (full, [])) &&
+      match dec_save_quick SG RR b with Some (qs, []) => list_eqb (list_eqb basic_seteqb) (map snd qs) quick | _ => false end &&
       (fend =? lenb b) && (qend =? lenb b)
   | CMM chr ls b loaded =>
       bytes_eqb (enc_mm ls) b &&
@@ -219,9 +220,9 @@ Definition prop (c:case) : bool :=
       ra_eqb a a' && dec_eqb ra_eqb (dec (c_ra SG) (b ++ t)) (Some (a, t)) && (frest =? qrest) && (frest =? lenb t) &&
       basic_seteqb q (basic_of a) && basic_seteqb p (basic_of a)
   | CBasic x b x' => basic_eqb x x' && dec_eqb basic_eqb (dec c_basic b) (Some (x, []))
-  | CGene g b g' => ghead_eqb g g' && dec_eqb ghead_eqb (dec c_ghead b) (Some (g, []))
+  | CGene g b g' => ghead_eqb g g' && dec_eqb ghead_eqb (dec (c_ghead RR) b) (Some (g, []))
   | CStream gs b full quick fend qend =>
-      groups_eqb gs full && dec_eqb groups_eqb (dec_save_full SG b) (Some (gs, [])) &&
+      groups_eqb gs full && dec_eqb groups_eqb (dec_save_full SG RR b) (Some (gs, [])) &&
       list_eqb (list_eqb basic_seteqb) (map (fun g => map basic_of (snd g)) gs) quick && (fend =? qend)
   | CMM chr ls b loaded =>
       dec_eqb (list_eqb (list_eqb basic_eqb)) (dec_mm_file b) (Some (ls, [])) &&
@@ -254,7 +255,16 @@ def run(ctx):
     # a negative dictionary value must come back unchanged)
     probe = io.BytesIO(); S.write_dict({"k": -1}, probe); probe.seek(0)
     signed = attempt(lambda: S.read_dict(probe)) == ("ok", {"k": -1})
-    pre_prim = PRE_PRIM.replace("@SG@", "true" if signed else "false"); pre_obj = PRE_OBJ.replace("@SG@", "true" if signed else "false")
+    # which gene-header layout does the code under test write / read?  a header whose reference window differs from the gene region
+    def probe_window():
+        g = GeneInfo.__new__(GeneInfo); g.delta = 0; g.gene_db_list = []; g.chr_id = "c"; g.start = 100; g.end = 200; g.all_read_region_start = 50; g.all_read_region_end = 300
+        b = io.BytesIO(); g.serialize(b); b.seek(0); g2 = GeneInfo.deserialize(b, None)
+        return (g2.all_read_region_start, g2.all_read_region_end) == (50, 300) and b.tell() == len(b.getvalue())
+    window = attempt(probe_window) == ("ok", True)
+    sub = lambda t: t.replace("@SG@", "true" if signed else "false").replace("@RR@", "true" if window else "false")
+    pre_prim = sub(PRE_PRIM); pre_obj = sub(PRE_OBJ)
+    ctx.notes.append("gene header layout of the code under test: %s" % ("with the reference window of the reads (all_read_region_start / _end; fixes/C18_serialize_read_region.diff)" if window else
+                                                                         "without the reference window (before fixes/C18_serialize_read_region.diff): the reader takes the gene region for it, generated headers have window = gene region"))
     ctx.notes.append("read_dict variant of the code under test: %s" % ("read_int_neg (repaired)" if signed else "read_int (before fixes/C15_read_dict_sign.diff): negative dictionary values violate the round trip"))
 
     # ============================================================ generators
@@ -308,7 +318,10 @@ def run(ctx):
                     exon_profile=[rnd.choice([-2, -1, 0, 1]) if rnd.random() < .9 else g_neg() for _ in range(rnd.choice([0, 1, 3, 10, 40]))],
                     intron_profile=[rnd.choice([-2, -1, 0, 1]) for _ in range(rnd.choice([0, 0, 2, 9]))])
     def g_gene():
-        return dict(delta=rnd.choice([0, 6, g_u32()]), genes=[g_str() for _ in range(rnd.choice([0, 1, 1, 2, 5]))], chr=rnd.choice(["chr1", g_str()]), start=g_u32(), end=g_u32())
+        d = dict(delta=rnd.choice([0, 6, g_u32()]), genes=[g_str() for _ in range(rnd.choice([0, 1, 1, 2, 5]))], chr=rnd.choice(["chr1", g_str()]), start=g_u32(), end=g_u32())
+        # reference window of the reads: any window with the layout that stores it; the gene region itself with the layout that does not (its reader takes the gene region)
+        d["rstart"], d["rend"] = (g_u32(), g_u32()) if (window and rnd.random() < .8) else (d["start"], d["end"])
+        return d
 
     # ============================================================ real objects <-> plain fields
     def mk_event(d): return MatchEvent(d["t"], d["iso"], d["read"], d["info"])
@@ -322,7 +335,8 @@ def run(ctx):
         a.additional_info = dict(d["info"]); a.additional_attributes = dict(d["attrs"]); a.introns_match = d["introns_match"]
         a.exon_gene_profile = list(d["exon_profile"]); a.intron_gene_profile = list(d["intron_profile"]); return a
     def mk_gene(d):
-        g = GeneInfo.__new__(GeneInfo); g.delta = d["delta"]; g.gene_db_list = [types.SimpleNamespace(id=x) for x in d["genes"]]; g.chr_id = d["chr"]; g.start = d["start"]; g.end = d["end"]; return g
+        g = GeneInfo.__new__(GeneInfo); g.delta = d["delta"]; g.gene_db_list = [types.SimpleNamespace(id=x) for x in d["genes"]]; g.chr_id = d["chr"]; g.start = d["start"]; g.end = d["end"]
+        g.all_read_region_start = d["rstart"]; g.all_read_region_end = d["rend"]; return g
     def f_event(e): return dict(t=e.event_type, iso=tuple(e.isoform_region), read=tuple(e.read_region), info=e.event_info)
     def f_match(m): return dict(gene=m.assigned_gene, tr=m.assigned_transcript, strand=m.transcript_strand, cls=m.match_classification, pen=m.penalty_score,
                                 events=[f_event(e) for e in m.match_subclassifications])
@@ -335,7 +349,7 @@ def run(ctx):
                     exon_profile=list(a.exon_gene_profile), intron_profile=list(a.intron_gene_profile))
     def f_basic(b): return dict(id=b.assignment_id, read_id=b.read_id, chr=b.chr_id, start=b.start, end=b.end, region=tuple(b.genomic_region), flags=[b.multimapper, b.polyA_found],
                                 type=b.assignment_type, gene_type=b.gene_assignment_type, pen=b.penalty_score, genes=list(b.genes), isoforms=list(b.isoforms))
-    def f_gene(g): return dict(delta=g.delta, genes=[x.id for x in g.gene_db_list], chr=g.chr_id, start=g.start, end=g.end)
+    def f_gene(g): return dict(delta=g.delta, genes=[x.id for x in g.gene_db_list], chr=g.chr_id, start=g.start, end=g.end, rstart=g.all_read_region_start, rend=g.all_read_region_end)
     def quant(x): return Fraction(int(Fraction(x) * MULT), MULT)
     def q_match(m): return dict(m, pen=quant(m["pen"]))
     def q_ra(a): return dict(a, matches=[q_match(m) for m in a["matches"]])
@@ -778,7 +792,7 @@ def run(ctx):
     guarded("pipeline", pipeline_part, ctx, pre_obj, DP, AIO, S, f_gene, f_ra, f_basic, cgene, cra, cbasic, FakeDB, mm_reader, quick)
     ctx.assume.append("short reads: the harness stream raises on a read past the end of the data, the model decoders return None there; the real readers on real files return 0 / shorter strings silently (truncated files are outside the property)")
     ctx.assume.append("Python floats: penalty_score * 2^20 and k / 2^20 are exact in binary floating point (k < 2^32), so the fixed-point model over Q applies; values are passed to Coq as exact fractions")
-    ctx.assume.append("GeneInfo: only the serialized header is modelled; the re-derivation from the annotation database is covered by the pipeline comparison only")
+    ctx.assume.append("GeneInfo: only the serialized header (with the reference window of the reads where the code under test stores it) is modelled; the re-derivation from the annotation database is covered by the pipeline comparison only")
     ctx.assume.append("the loop reading the multimappers file and the statements writing save_info are executed from the source text of construct_models_in_parallel / collect_reads (they cannot be called separately)")
 
 
